@@ -223,3 +223,35 @@ def is_none_fact(atom: ast.AST, pol: bool) -> ast.AST | None:
         if isinstance(atom.ops[0], ast.Is) and pol or isinstance(atom.ops[0], ast.IsNot) and not pol:
             return atom.left
     return None
+
+
+def norm_atom(a: ast.AST) -> tuple[str, bool]:
+    """(key, positive): ``x not in y`` -> ("x in y", False); ``x is not y`` -> ("x is y", False)."""
+    if isinstance(a, ast.Compare) and len(a.ops) == 1:
+        if isinstance(a.ops[0], ast.NotIn):
+            return src(ast.Compare(a.left, [ast.In()], a.comparators)), False
+        if isinstance(a.ops[0], ast.IsNot):
+            return src(ast.Compare(a.left, [ast.Is()], a.comparators)), False
+        if isinstance(a.ops[0], ast.NotEq):
+            return src(ast.Compare(a.left, [ast.Eq()], a.comparators)), False
+    return src(a), True
+
+
+def eval_bool(e: ast.AST, val: dict[str, bool]) -> bool | None:
+    """Evaluate a boolean expression under a valuation of normalised atoms (None: unknown atom)."""
+    if isinstance(e, ast.UnaryOp) and isinstance(e.op, ast.Not):
+        r = eval_bool(e.operand, val)
+        return None if r is None else not r
+    if isinstance(e, ast.BoolOp):
+        rs = [eval_bool(v, val) for v in e.values]
+        if isinstance(e.op, ast.And):
+            if any(r is False for r in rs):
+                return False
+            return True if all(r is True for r in rs) else None
+        if any(r is True for r in rs):
+            return True
+        return False if all(r is False for r in rs) else None
+    k, pos = norm_atom(e)
+    if k not in val:
+        return None
+    return val[k] if pos else not val[k]
